@@ -32,7 +32,8 @@ Inductive query :=
 | QTreeFindFirst (data : option Z) (mt : option Z) (data_id : option Z) (node_id : option Z)
 | QGet (k : Z)
 | QContains (k : Z)
-| QDel (k : Z).
+| QDel (k : Z)
+| QClones (start : Z).      (* is_clone, get_clones(add_self=False), get_clones(add_self=True) *)
 
 Record case := C {
   c_state : tstate;
@@ -90,6 +91,12 @@ Definition run_query (c : case) (q : query) : sx :=
   | QGet i => match gk i with Some k => sx_res sx_nat (getitem st k) | None => bad_ref end
   | QContains i => match gk i with Some k => sx_res sx_bool (contains st k) | None => bad_ref end
   | QDel i => match gk i with Some k => sx_res sx_ids (delitem st k) | None => bad_ref end
+  | QClones s =>
+      match find_node (Z.to_nat s) f with
+      | Some n => L [ sx_res sx_bool (node_is_clone st n);
+                      sx_res sx_ids (node_get_clones st n false); sx_res sx_ids (node_get_clones st n true) ]
+      | None => bad_ref
+      end
   end.
 
 (* the first component says whether the observed registry and clone index
